@@ -1,5 +1,6 @@
 import GfsModel.OpsSeq
 import GfsModel.OpsHist
+import GfsModel.OpsList
 
 namespace Gfs.Ops
 open Gfs.Proto
@@ -13,6 +14,9 @@ def dispatch (f : List String) : Obs × Option Obs :=
     | none =>
       match dispatchHist f with
       | some r => r
-      | none => ([("bad-op", "1")], none)
+      | none =>
+        match dispatchList f with
+        | some r => r
+        | none => ([("bad-op", "1")], none)
 
 end Gfs.Ops
